@@ -40,13 +40,6 @@ Definition prog_of (sorted hasdata : bool) (ev : event) (s : fs) : option (list 
 Definition is_suicide (ev : event) : bool :=
   match ev with EvActiveSuicide | EvSealedSuicide => true | _ => false end.
 
-Definition served_class (s : fs) (hasdata : bool) : bool :=
-  match classify s with
-  | CSealedSD | CSealedD => true
-  | CActive => hasdata
-  | _ => false
-  end.
-
 (* every crash point of an observed operation sequence is a safe state *)
 Fixpoint prefixes_safe (sorted hasdata doomed : bool) (s : fs) (ops : list xop) : bool :=
   safe true sorted hasdata doomed s &&
